@@ -1,5 +1,5 @@
 ------------------------------- MODULE MCStore -------------------------------
 EXTENDS Store
 \* keys 1..6 in byte order of their encoding: a/1 a/2 a/3 b/1 b/2 ab/1
-MCPrefixOf(k) == CASE k \in {1, 2, 3} -> "a" [] k \in {4, 5} -> "b" [] OTHER -> "ab"
+MCPrefixOf(k) == CASE k \in {1, 2, 3, 4} -> "a" [] k \in {5, 6} -> "b" [] OTHER -> "ab"   \* a/1 a/1/x a/2 a/3 b/1 b/2 ab/1
 =============================================================================
